@@ -1,8 +1,16 @@
 (* C03 — executable model of unzipping under resource limits.
-   Mirrors utils/filesystem/zip.go (as repaired by fixes/C03-unzip-require-eof.patch):
+   Mirrors utils/filesystem/zip.go (line numbers of the tree at bc1ce85a + the C03 repair):
      newZipReader :211-250, VFS.unzip :252-381, unzipNestedZipFiles :383-395, unzipZippedFile :413-478,
-   utils/filesystem/limits.go (Limits, Apply() = true) and utils/safeio/copy.go (CopyNWithContext = io.CopyN).
-   Definitions only; proofs are in Proofs.v.
+   utils/filesystem/limits.go (Limits) and utils/safeio/copy.go (CopyNWithContext).
+   Definitions only.
+
+   The model is PARAMETERISED by a record of [facts] that the translator translator-c03/cmd/zipfacts2coq extracts from
+   the Go source on every run (coq/C03/Gen.v, [generated]): comparison operator and operands of every limit check, the
+   switches on the depth limit, what is added to which counter and where, whether directory entries skip the checks,
+   whether the copy is bounded by the declared size and followed by the end-of-stream probe, the depth handed to nested
+   extractions, which field each getter of Limits returns, plus a canonical trace of the limit-relevant statements of
+   each function in source order.  [expected] is the instance the theorems are proved for (Concrete.v is the model
+   specialised to it, Bridge.v proves the specialisation, Props.v discharges [generated = expected]).
 
    An archive is the list of its central-directory entries.  What the code can see of an entry:
      d          number of separators in the cleaned entry name (FileTreeDepth of the entry below the destination);
@@ -16,7 +24,7 @@
                 say zip; [BadZip] = sniffed as zip but zip.NewReader fails; [GoodZip] = an archive, whose entries are
      nested     (only meaningful for [GoodZip]).
    Nesting is unbounded: [entry] is a nested inductive type. *)
-From Coq Require Import List ZArith Bool.
+From Coq Require Import List ZArith Bool String.
 Import ListNotations.
 Local Open Scope Z_scope.
 
@@ -57,10 +65,195 @@ Record eff := mkEff {
 
 Record res := mkRes { r_kind : option ek; r_cnt : Z; r_tot : Z; r_nodes : list node; r_writes : list wr }.
 
+
+(* ======================================================================================================== *)
+(* Facts extracted from the source                                                                           *)
+(* ======================================================================================================== *)
+
+Inductive cmp := CGt | CGe | CLt | CLe | CEq | CNe.
+Definition cmpb (c : cmp) (a b : Z) : bool :=
+  match c with
+  | CGt => a >? b | CGe => b <=? a | CLt => a <? b | CLe => a <=? b | CEq => a =? b | CNe => negb (a =? b)
+  end.
+
+Inductive lfield := FMaxFileSize | FMaxTotalSize | FMaxFileCount | FMaxDepth.     (* fields of Limits *)
+Inductive getter := GMaxFileSize | GMaxTotalSize | GMaxFileCount | GMaxDepth.     (* getters of ILimits *)
+(* what a limit is compared with: the currentDepth parameter, fileDepth, the archive's size, the declared size of the
+   entry (fileSizeOnDisk), totalSizeOnDisk.Load(), fileCounter.Load() *)
+Inductive var := VCurrentDepth | VFileDepth | VArchiveSize | VFileSize | VTotal | VCount.
+Record check := mkCheck { ck_lhs : var; ck_op : cmp; ck_rhs : getter }.             (* lhs OP limits.getter() *)
+
+Record facts := mkFacts {
+  (* limits.go: the field each getter returns; Apply() is the constant true; ApplyRecursively() is the Recursive field *)
+  g_file : lfield; g_total : lfield; g_count : lfield; g_depth : lfield; g_apply : bool; g_recursive : bool;
+  (* safeio/copy.go: CopyNWithContext is io.CopyN(dst, src, n) with n untouched *)
+  cp_copyn : bool;
+  (* newZipReader *)
+  nz_depth_switch : cmp;                 (* limits.GetMaxDepth() OP 0 *)
+  nz_depth : check; nz_size : check;
+  nz_checks_before_reader : bool;        (* both checks come before zip.NewReader *)
+  (* the loop of unzip *)
+  lp_depth_switch : cmp;                 (* limits.GetMaxDepth() OP 0 around the depth block *)
+  lp_depth_adds_current : bool;          (* fileDepth = depth + currentDepth *)
+  lp_depth : check;
+  lp_dir_skips_checks : bool;            (* directory entries `continue` before the total / count checks *)
+  lp_nested_total_added : bool;          (* totalSizeOnDisk.Add(filesSizeOnDisk) after a nested extraction *)
+  lp_nested_count_added : bool;          (* fileCounter.Add(filesOnDiskCount) after a nested extraction *)
+  lp_size_added_rec : bool;              (* totalSizeOnDisk.Add(ToUint64(fileSizeOnDisk)), recursive mode, not a zip *)
+  lp_size_added_flat : bool;             (* the same, non-recursive mode *)
+  lp_zipname_counted : bool;             (* a zip-named entry that is no zip is counted after all *)
+  lp_total : check; lp_count : check;
+  lp_checks_after_additions : bool;      (* both checks come after every addition of the iteration *)
+  (* unzipZippedFile *)
+  zf_depth_switch : cmp; zf_depth : check;
+  zf_size : check;
+  zf_size_before_copy : bool;            (* the declared size is checked before anything is copied *)
+  zf_bounded_copy : bool;                (* CopyNWithContext(ctx, sourceFile, destinationFile, fileSizeOnDisk), fileSizeOnDisk = info.Size() *)
+  zf_eos_probe : bool;                   (* followed by the end-of-stream probe (the C03 repair) *)
+  (* unzipNestedZipFiles: unzip(..., limits, currentDepth + ns_depth_inc) *)
+  ns_depth_inc : Z;
+  (* canonical traces: the limit-relevant statements of each function in source order *)
+  tr_newzipreader : list string; tr_unzip : list string; tr_nested : list string; tr_zippedfile : list string
+}.
+
+Local Open Scope string_scope.
+Definition expected : facts := {|
+  g_file := FMaxFileSize; g_total := FMaxTotalSize; g_count := FMaxFileCount; g_depth := FMaxDepth;
+  g_apply := true; g_recursive := true;
+  cp_copyn := true;
+  nz_depth_switch := CGe;
+  nz_depth := mkCheck VCurrentDepth CGt GMaxDepth;
+  nz_size := mkCheck VArchiveSize CGt GMaxFileSize;
+  nz_checks_before_reader := true;
+  lp_depth_switch := CGe;
+  lp_depth_adds_current := true;
+  lp_depth := mkCheck VFileDepth CGt GMaxDepth;
+  lp_dir_skips_checks := true;
+  lp_nested_total_added := true;
+  lp_nested_count_added := true;
+  lp_size_added_rec := true;
+  lp_size_added_flat := true;
+  lp_zipname_counted := true;
+  lp_total := mkCheck VTotal CGt GMaxTotalSize;
+  lp_count := mkCheck VCount CGt GMaxFileCount;
+  lp_checks_after_additions := true;
+  zf_depth_switch := CGt;
+  zf_depth := mkCheck VCurrentDepth CGt GMaxDepth;
+  zf_size := mkCheck VFileSize CGt GMaxFileSize;
+  zf_size_before_copy := true;
+  zf_bounded_copy := true;
+  zf_eos_probe := true;
+  ns_depth_inc := 1%Z;
+  tr_newzipreader := [
+    "if apply && GMaxDepth CGe 0 && VCurrentDepth CGt GMaxDepth {";
+    "refuse(TooLarge)";
+    "}";
+    "zipFileSize = info.Size()";
+    "if apply && VArchiveSize CGt GMaxFileSize {";
+    "refuse(TooLarge)";
+    "}";
+    "zip.NewReader(file,zipFileSize)"
+  ];
+  tr_unzip := [
+    "fileCounter := 0";
+    "totalSizeOnDisk := 0";
+    "newZipReader(source,limits,currentDepth)";
+    "mkdir(destination)";
+    "for each entry {";
+    "if apply && GMaxDepth CGe 0 {";
+    "depth,subErr := FileTreeDepth(destination,filePath)";
+    "fileDepth = depth+currentDepth";
+    "if VFileDepth CGt GMaxDepth {";
+    "refuse(TooLarge)";
+    "}";
+    "}";
+    "if not(recursive&&zipname) {";
+    "count++";
+    "list += filePath";
+    "}";
+    "if isdir {";
+    "mkdir(filePath)";
+    "directoryInfo[filePath] = zippedFile.FileInfo()";
+    "continue";
+    "}";
+    "mkdir(directoryPath)";
+    "fileSizeOnDisk,subErr := unzipZippedFile(destination,filePath,zippedFile,limits,fileDepth)";
+    "if recursive {";
+    "if iszip(extracted) {";
+    "nestedUnzippedFiles,filesOnDiskCount,filesSizeOnDisk,subErr := unzipNestedZipFiles(filePath,limits,fileDepth)";
+    "total += filesSizeOnDisk";
+    "count += filesOnDiskCount";
+    "list += nestedUnzippedFiles";
+    "} else {";
+    "if zipname {";
+    "count++";
+    "list += filePath";
+    "}";
+    "total += safecast.ToUint64(fileSizeOnDisk)";
+    "}";
+    "} else {";
+    "total += safecast.ToUint64(fileSizeOnDisk)";
+    "}";
+    "if apply && VTotal CGt GMaxTotalSize {";
+    "refuse(TooLarge)";
+    "}";
+    "if apply && count-fits-int64 && VCount CGt GMaxFileCount {";
+    "refuse(TooLarge)";
+    "}";
+    "}"
+  ];
+  tr_nested := [
+    "nestedUnzippedFiles,fileOnDiskCount,filesSizeOnDisk,subErr := unzip(nestedZipFile,destination,limits,currentDepth+1)";
+    "rm(nestedZipFile)"
+  ];
+  tr_zippedfile := [
+    "if apply && GMaxDepth CGt 0 && VCurrentDepth CGt GMaxDepth {";
+    "refuse(TooLarge)";
+    "}";
+    "openfile(os.O_WRONLY|os.O_CREATE|os.O_TRUNC)";
+    "open-zipped-stream";
+    "info = zippedFile.FileInfo()";
+    "fileSizeOnDisk = info.Size()";
+    "if apply {";
+    "if VFileSize CGt GMaxFileSize {";
+    "refuse(TooLarge)";
+    "}";
+    "}";
+    "_,err := safeio.CopyNWithContext(ctx,sourceFile,destinationFile,fileSizeOnDisk)";
+    "extra,err := io.CopyN(io.Discard,sourceFile,1)";
+    "if extra>0 {";
+    "refuse(error)";
+    "}";
+    "if not-eof {";
+    "refuse(error)";
+    "}"
+  ]
+|}.
+Local Close Scope string_scope.
+
+(* ---- reading the facts ---- *)
+Definition field_val (lim : limits) (f : lfield) : Z :=
+  match f with FMaxFileSize => max_file lim | FMaxTotalSize => max_total lim | FMaxFileCount => max_count lim | FMaxDepth => max_depth lim end.
+Definition limit_of (F : facts) (lim : limits) (g : getter) : Z :=
+  field_val lim (match g with GMaxFileSize => g_file F | GMaxTotalSize => g_total F | GMaxFileCount => g_count F | GMaxDepth => g_depth F end).
+Definition rec_of (F : facts) (lim : limits) : bool := g_recursive F && recursive lim.
+
+Record env := mkEnv { v_cur : Z; v_fd : Z; v_asize : Z; v_fsize : Z; v_tot : Z; v_cnt : Z }.
+Definition var_val (e : env) (v : var) : Z :=
+  match v with VCurrentDepth => v_cur e | VFileDepth => v_fd e | VArchiveSize => v_asize e | VFileSize => v_fsize e
+             | VTotal => v_tot e | VCount => v_cnt e end.
+Definition eval_check (F : facts) (lim : limits) (c : check) (e : env) : bool :=
+  cmpb (ck_op c) (var_val e (ck_lhs c)) (limit_of F lim (ck_rhs c)).
+Definition switch_on (F : facts) (lim : limits) (s : cmp) : bool := cmpb s (limit_of F lim GMaxDepth) 0.
+
+(* ======================================================================================================== *)
+(* The model, parameterised by the facts                                                                     *)
+(* ======================================================================================================== *)
+
 (* the loop zip.go:283-372 over the effects of the entries, threading fileCounter / totalSizeOnDisk *)
-Fixpoint run (lim : limits) (effs : list eff) (cnt tot : Z) (nodes : list node) (writes : list wr) : res :=
+Fixpoint runF (F : facts) (lim : limits) (effs : list eff) (cnt tot : Z) (nodes : list node) (writes : list wr) : res :=
   match effs with
-  | [] => mkRes None cnt tot nodes writes                                   (* :380 *)
+  | [] => mkRes None cnt tot nodes writes                                  (* :380 *)
   | f :: fs =>
       let cnt' := cnt + f_cnt f in
       let tot' := tot + f_tot f in
@@ -69,80 +262,88 @@ Fixpoint run (lim : limits) (effs : list eff) (cnt tot : Z) (nodes : list node) 
       match f_stop f with
       | Some k => mkRes (Some k) cnt' tot' nodes' writes'
       | None =>
-          if f_check f && (tot' >? max_total lim) then mkRes (Some TooLarge) cnt' tot' nodes' writes'        (* :366 *)
-          else if f_check f && (cnt' >? max_count lim) then mkRes (Some TooLarge) cnt' tot' nodes' writes'   (* :369 *)
-          else run lim fs cnt' tot' nodes' writes'
+          let e := if lp_checks_after_additions F then mkEnv 0 0 0 0 tot' cnt' else mkEnv 0 0 0 0 tot cnt in
+          if f_check f && (g_apply F && eval_check F lim (lp_total F) e) then mkRes (Some TooLarge) cnt' tot' nodes' writes'        (* :366 *)
+          else if f_check f && (g_apply F && eval_check F lim (lp_count F) e) then mkRes (Some TooLarge) cnt' tot' nodes' writes'   (* :369 *)
+          else runF F lim fs cnt' tot' nodes' writes'
       end
   end.
 
-(* newZipReader :211-250 followed by MkDir(destination) :276 and the loop, with FRESH counters (:259-262).
-   [cur] = currentDepth, [asize] = size of the archive file, [readable] = zip.NewReader succeeds,
-   [destdir] = the destination directory when it lies below the top-level destination. *)
-Definition open_archive (lim : limits) (cur asize : Z) (readable : bool) (destdir : list node) (effs : list eff) : res :=
-  if (0 <=? max_depth lim) && (cur >? max_depth lim) then mkRes (Some TooLarge) 0 0 [] []   (* :220 *)
-  else if asize >? max_file lim then mkRes (Some TooLarge) 0 0 [] []                         (* :241 *)
-  else if negb readable then mkRes (Some Other) 0 0 [] []                                    (* :246 *)
-  else run lim effs 0 0 destdir [].
+(* newZipReader :211-250 followed by MkDir(destination) :276 and the loop, with FRESH counters (:259-262) *)
+Definition open_archiveF (F : facts) (lim : limits) (cur asize : Z) (readable : bool) (destdir : list node) (effs : list eff) : res :=
+  let e := mkEnv cur 0 asize 0 0 0 in
+  if negb (nz_checks_before_reader F) && negb readable then mkRes (Some Other) 0 0 [] []
+  else if g_apply F && (switch_on F lim (nz_depth_switch F) && eval_check F lim (nz_depth F) e) then mkRes (Some TooLarge) 0 0 [] []   (* :220 *)
+  else if g_apply F && eval_check F lim (nz_size F) e then mkRes (Some TooLarge) 0 0 [] []                                             (* :241 *)
+  else if negb readable then mkRes (Some Other) 0 0 [] []                                                                              (* :246 *)
+  else runF F lim effs 0 0 destdir [].
 
-(* One iteration of the loop.  [cur] is the code's currentDepth (it degenerates when the depth limit is disabled, as
-   in the code: fileDepth stays 0); [base] is the true depth of the destination below the top-level destination. *)
-
-(* fileDepth :302-305: only computed when the depth limit is enabled *)
-Definition entry_depth (lim : limits) (cur d : Z) : Z := if 0 <=? max_depth lim then d + cur else 0.
-Definition too_deep (lim : limits) (fd : Z) : bool := (0 <=? max_depth lim) && (fd >? max_depth lim).   (* :303,:309 *)
-(* :316-319: the entry is recorded now unless it is a zip (by name) that the recursive mode will unzip later *)
-Definition count0 (lim : limits) (zn : bool) : Z := if recursive lim && zn then 0 else 1.
-(* :356-359: a zip-named entry that turned out not to be a zip is recorded after all *)
-Definition count1 (lim : limits) (zn : bool) : Z := if recursive lim && zn then 1 else 0.
-(* :334-335 MkDir(filepath.Dir(filePath)) *)
-Definition parent_dir (base d : Z) : list node := if 0 <? d then [NDir (base + d - 1)] else [].
+(* fileDepth :302-305 *)
+Definition depth_on (F : facts) (lim : limits) : bool := g_apply F && switch_on F lim (lp_depth_switch F).
+Definition entry_depthF (F : facts) (lim : limits) (cur d : Z) : Z :=
+  if depth_on F lim then (if lp_depth_adds_current F then d + cur else d) else 0.
+Definition too_deepF (F : facts) (lim : limits) (cur fd : Z) : bool :=
+  depth_on F lim && eval_check F lim (lp_depth F) (mkEnv cur fd 0 0 0 0).                          (* :303,:309 *)
+Definition count0F (F : facts) (lim : limits) (zn : bool) : Z := if rec_of F lim && zn then 0 else 1.      (* :316-319 *)
+Definition count1F (F : facts) (lim : limits) (zn : bool) : Z := if rec_of F lim && zn then 1 else 0.      (* :356-359 *)
+Definition parent_dir (base d : Z) : list node := if 0 <? d then [NDir (base + d - 1)] else [].          (* :334-335 *)
 (* :454 io.CopyN(dst, src, sz): min(sz, stream) bytes reach the file; a negative sz copies nothing *)
 Definition copied (sz act : Z) : Z := if sz <? 0 then 0 else Z.min sz act.
 
 (* a directory entry: :302-331 *)
-Definition dir_eff (lim : limits) (cur base d : Z) : eff :=
-  if too_deep lim (entry_depth lim cur d) then mkEff (Some TooLarge) 0 0 false [] []  (* :309 *)
-  else mkEff None 1 0 false [NDir (base + d)] [].                                      (* :316-330; Ext("x.zip/") = "" *)
+Definition dir_effF (F : facts) (lim : limits) (cur base d : Z) : eff :=
+  if too_deepF F lim cur (entry_depthF F lim cur d) then mkEff (Some TooLarge) 0 0 false [] []    (* :309 *)
+  else mkEff None 1 0 (negb (lp_dir_skips_checks F)) [NDir (base + d)] [].                        (* :316-330; Ext("x.zip/") = "" *)
 
 (* a file entry: :302-364 with unzipZippedFile and unzipNestedZipFiles inlined.  [sub c b'] are the effects of the
    entries of the nested archive when it is unzipped with currentDepth c into a destination at true depth b'. *)
-Definition file_eff (lim : limits) (cur base d : Z) (zn : bool) (decl act : Z) (crc op : bool) (b : body)
-                    (sub : Z -> Z -> list eff) : eff :=
-  let fd := entry_depth lim cur d in
-  let c0 := count0 lim zn in
+Definition file_effF (F : facts) (lim : limits) (cur base d : Z) (zn : bool) (decl act : Z) (crc op : bool) (b : body)
+                     (sub : Z -> Z -> list eff) : eff :=
+  let fd := entry_depthF F lim cur d in
+  let c0 := count0F F lim zn in
   let pdir := parent_dir base d in
   let here := base + d in
   let sz := i64 decl in                                                            (* :446 FileInfo().Size() *)
-  let written := copied sz act in
+  (* what reaches the file: the bounded copy, or everything the stream holds *)
+  let written := if zf_bounded_copy F && cp_copyn F then copied sz act else act in
   let w := [mkWr decl written] in
   let fnode := NFile here written in
-  if too_deep lim fd then mkEff (Some TooLarge) 0 0 false [] []                   (* :309 *)
+  let ze := mkEnv fd 0 0 sz 0 0 in                                                 (* inside unzipZippedFile currentDepth = fileDepth *)
+  let size_refused := g_apply F && eval_check F lim (zf_size F) ze in
+  (* the copy itself fails when the stream is shorter than asked for; reading to the end makes archive/zip verify size and checksum *)
+  let copy_fails := if zf_bounded_copy F && cp_copyn F then (0 <=? sz) && (act <? sz) else negb ((sz =? act) && crc) in
+  if too_deepF F lim cur fd then mkEff (Some TooLarge) 0 0 false [] []             (* :309 *)
   (* unzipZippedFile *)
-  else if (0 <? max_depth lim) && (fd >? max_depth lim) then mkEff (Some TooLarge) c0 0 false pdir []   (* :419, unreachable *)
-  else if negb op then mkEff (Some Other) c0 0 false (pdir ++ [NFile here 0]) [mkWr decl 0]            (* :429 creates, :437 fails *)
-  else if sz >? max_file lim then mkEff (Some TooLarge) c0 0 false (pdir ++ [NFile here 0]) [mkWr decl 0]  (* :448 *)
-  (* :454 CopyN fails when the stream is shorter; the repaired code then requires the stream to END at sz,
-     which is also where archive/zip verifies size and checksum *)
-  else if negb ((sz =? act) && crc) then mkEff (Some Other) c0 0 false (pdir ++ [fnode]) w
-  else if recursive lim && zn && negb (is_plain b) then                            (* :346-347 isZip(filePath): extension and content *)
+  else if g_apply F && (switch_on F lim (zf_depth_switch F) && eval_check F lim (zf_depth F) ze)
+       then mkEff (Some TooLarge) c0 0 false pdir []                               (* :419, unreachable *)
+  else if negb op then mkEff (Some Other) c0 0 false (pdir ++ [NFile here 0]) [mkWr decl 0]              (* :429 creates, :437 fails *)
+  else if zf_size_before_copy F && size_refused then mkEff (Some TooLarge) c0 0 false (pdir ++ [NFile here 0]) [mkWr decl 0]  (* :448 *)
+  else if negb (zf_size_before_copy F) && size_refused then mkEff (Some TooLarge) c0 0 false (pdir ++ [fnode]) w
+  (* :454 CopyN fails when the stream is shorter; the repaired code then requires the stream to END at sz *)
+  else if (if zf_eos_probe F then negb ((sz =? act) && crc) else copy_fails) then mkEff (Some Other) c0 0 false (pdir ++ [fnode]) w
+  else if rec_of F lim && zn && negb (is_plain b) then                             (* :346-347 isZip(filePath): extension and content *)
     (* unzipNestedZipFiles: unzip(nested, dir/stem, limits, fileDepth+1), then Rm(nested) *)
-    let r := open_archive lim (fd + 1) written (is_good b) [NDir here] (sub (fd + 1) (here + 1)) in
+    let r := open_archiveF F lim (fd + ns_depth_inc F) written (is_good b) [NDir here] (sub (fd + ns_depth_inc F) (here + 1)) in
     match r_kind r with
-    | None => mkEff None (c0 + r_cnt r) (r_tot r) true (pdir ++ r_nodes r) (w ++ r_writes r)              (* :352-354 *)
-    | Some k => mkEff (Some k) c0 0 false (pdir ++ fnode :: r_nodes r) (w ++ r_writes r)                      (* :349-351 *)
+    | None => mkEff None (c0 + (if lp_nested_count_added F then r_cnt r else 0))
+                         (if lp_nested_total_added F then r_tot r else 0) true (pdir ++ r_nodes r) (w ++ r_writes r)   (* :352-354 *)
+    | Some k => mkEff (Some k) c0 0 false (pdir ++ fnode :: r_nodes r) (w ++ r_writes r)                               (* :349-351 *)
     end
-  else mkEff None (c0 + count1 lim zn) (to_u64 sz) true (pdir ++ [fnode]) w.                             (* :355-364 *)
+  else mkEff None (c0 + (if lp_zipname_counted F then count1F F lim zn else 0))
+                  (if rec_of F lim then (if lp_size_added_rec F then to_u64 sz else 0)
+                                   else (if lp_size_added_flat F then to_u64 sz else 0))
+                  true (pdir ++ [fnode]) w.                                                                            (* :355-364 *)
 
-Fixpoint entry_eff (lim : limits) (cur base : Z) (e : entry) {struct e} : eff :=
+Fixpoint entry_effF (F : facts) (lim : limits) (cur base : Z) (e : entry) {struct e} : eff :=
   match e with
-  | EDir d => dir_eff lim cur base d
+  | EDir d => dir_effF F lim cur base d
   | EFile d zn decl act crc op b nested =>
-      file_eff lim cur base d zn decl act crc op b (fun c b' => map (entry_eff lim c b') nested)
+      file_effF F lim cur base d zn decl act crc op b (fun c b' => map (entry_effF F lim c b') nested)
   end.
 
 (* VFS.UnzipWithContextAndLimits: unzip(ctx, source, destination, limits, 0) *)
-Definition unzip_top (lim : limits) (asize : Z) (readable : bool) (es : list entry) : res :=
-  open_archive lim 0 asize readable [] (map (entry_eff lim 0 0) es).
+Definition unzip_topF (F : facts) (lim : limits) (asize : Z) (readable : bool) (es : list entry) : res :=
+  open_archiveF F lim 0 asize readable [] (map (entry_effF F lim 0 0) es).
 
 (* ---- observables ---- *)
 Definition files_total (ns : list node) : Z :=
@@ -195,8 +396,9 @@ Record case := mkCase {
   c_writes : list Z          (* sorted keys written*2^64+declared, one per file created *)
 }.
 
-Definition check_case (c : case) : bool :=
-  let r := unzip_top (c_lim c) (c_asize c) (c_readable c) (c_entries c) in
+(* the harness instantiates F with [generated] (coq/C03/Gen.v) *)
+Definition check_caseF (F : facts) (c : case) : bool :=
+  let r := unzip_topF F (c_lim c) (c_asize c) (c_readable c) (c_entries c) in
   rk_eqb (r_kind r) (c_kind c)
   && (r_cnt r =? c_listed c)
   && zlist_eqb (sort (file_keys (r_nodes r))) (c_files c)
